@@ -491,10 +491,10 @@ Definition range_fuel (sv : superversion) (eph : option (memtable * N))
   Datatypes.S (length (concat (range_sources sv eph lo hi S))).
 
 Definition ti_next (fuel : nat) (it : tree_iter) : option entry * tree_iter :=
-  live_next merger merge_next merge_next_back fuel it.
+  live_next merger merge_next fuel it.
 
 Definition ti_next_back (fuel : nat) (it : tree_iter) : option entry * tree_iter :=
-  live_next_back merger merge_next merge_next_back fuel it.
+  live_next_back merger merge_next_back fuel it.
 
 Fixpoint run_pulls (fuel : nat) (it : tree_iter) (ps : list pull) : list (option entry) :=
   match ps with
